@@ -12,6 +12,7 @@ import (
 	"testing"
 	"time"
 
+	"github.com/milvus-io/milvus-proto/go-api/v2/commonpb"
 	"github.com/milvus-io/milvus/pkg/util/funcutil"
 
 	"github.com/zilliztech/milvus-cdc/core/log"
@@ -398,6 +399,68 @@ func (x *fsExec) check() (viol []sched.Violation, summary string, nontrivial boo
 			}
 		}
 	}
+	// C03 across restart / resume: what the downstream accepted on one channel, in order, over all incarnations
+	{
+		lastTick := map[string]uint64{}
+		lastTickAt := map[string]int{}
+		persisted := map[string]string{}                       // task/coll/channel -> checkpointed end position id
+		ackOf := map[string]struct{ ch string; tick uint64; at int }{} // end position id -> where / with which closing tick it was accepted
+		for _, e := range x.events {
+			switch e.Kind {
+			case "put":
+				for pch, pi := range e.Pos.Positions {
+					if pi != nil && pi.DataPair != nil {
+						persisted[fmt.Sprintf("%s/%d/%s", e.Pos.TaskID, e.Pos.CollectionID, pch)] = string(pi.DataPair.Data)
+					}
+				}
+			case "restart", "resume":
+				// streams are resumed from the persisted checkpoints: packs accepted after the checkpointed one are sent
+				// again (C05 allows that) with the times they had, so the floor for what follows is the closing tick of the
+				// checkpointed packs, not of the last accepted ones
+				floor := map[string]uint64{}
+				for _, id := range persisted {
+					if a, ok := ackOf[id]; ok && a.tick > floor[a.ch] {
+						floor[a.ch] = a.tick
+						lastTickAt[a.ch] = a.at
+					}
+				}
+				for ch := range lastTick {
+					lastTick[ch] = floor[ch]
+				}
+			}
+			if e.Kind != "ack" {
+				continue
+			}
+			ch := e.Key
+			// the closing tick is the pack's last message (for a tick-only pack the envelope keeps the source's end time)
+			closing := e.Pack.EndTs
+			if n := len(e.Pack.Msgs); n > 0 && e.Pack.Msgs[n-1].Type == commonpb.MsgType_TimeTick {
+				closing = e.Pack.Msgs[n-1].Ts
+			} else {
+				add("C03/resume/no-closing-tick", "on %s the pack acknowledged at event %d does not end with a time tick", ch, e.N)
+			}
+			if _, seen := ackOf[e.Pack.EndMsgID]; !seen {
+				ackOf[e.Pack.EndMsgID] = struct{ ch string; tick uint64; at int }{ch, closing, e.N}
+			}
+			if closing < lastTick[ch] {
+				add("C03/resume/tick-decreases", "on %s the pack acknowledged at event %d (incarnation %d) closes with tick %d, below the closing tick %d of the pack acknowledged at event %d", ch, e.N, e.Inc, closing, lastTick[ch], lastTickAt[ch])
+			}
+			for _, m := range e.Pack.Msgs {
+				if m.Type == commonpb.MsgType_TimeTick || m.Msg == nil {
+					continue
+				}
+				if lt, ok := lastTick[ch]; ok && m.Ts <= lt {
+					add("C03/resume/data-not-after-earlier-tick", "on %s message %s acknowledged at event %d (incarnation %d) has ts %d, not above the closing tick %d of the pack acknowledged at event %d", ch, m.Key, e.N, e.Inc, m.Ts, lt, lastTickAt[ch])
+				}
+				if m.Ts > closing {
+					add("C03/resume/data-after-own-tick", "on %s message %s (event %d) has ts %d above its own pack's closing tick %d", ch, m.Key, e.N, m.Ts, closing)
+				}
+			}
+			if closing >= lastTick[ch] {
+				lastTick[ch], lastTickAt[ch] = closing, e.N
+			}
+		}
+	}
 	// at least once: after the final clean restart everything processable has been acknowledged
 	complete := !x.hitCap && !x.cur.dead && !x.restarting
 	if complete {
@@ -566,11 +629,26 @@ func (x *fsExec) eventText() string {
 	return sb.String()
 }
 
+// fsKeep: signature prefixes the running test judges (the event-log oracle evaluates the clauses of C03, C05 and C06)
+var fsKeep = []string{"C05/", "C06/"}
+
 func fsWrap(sc *fsScenario) *sched.Scenario {
 	return &sched.Scenario{Name: sc.Name, Run: func(t *testing.T, ctl *sched.Ctl) sched.Outcome {
 		x := fsExecute(t, sc, ctl)
-		v, sum, nt := x.check()
+		all, sum, nt := x.check()
+		if os.Getenv("VERIF_DUMPALL") != "" {
+			fmt.Printf("DUMP %s %v\n%s\n", sc.Name, ctl.Choices, x.eventText())
+		}
 		x.teardown()
+		var v []sched.Violation
+		for _, one := range all {
+			for _, p := range fsKeep {
+				if strings.HasPrefix(one.Sig, p) {
+					v = append(v, one)
+					break
+				}
+			}
+		}
 		return sched.Outcome{Summary: sum, Nontrivial: nt, Violations: v}
 	}}
 }
@@ -856,6 +934,19 @@ func TestVerifC05Resume(t *testing.T) {
 	}
 	res.Rule = "sched engine over the full stack (real MetaCDC, channel manager, readers, writer, batcher, etcd stores over fakeetcd / fakemq / fakedown): scheduling points = stream delivery (free), the downstream's answer to every replicate and DDL call and every checkpoint write, each with the alternatives proceed | fail | crash before | crash after (each non-default alternative costs one deviation), a manual pause; after a crash a new incarnation is started over the same store, downstream and source logs; paused tasks are resumed at quiescence; every execution ends, if anything is still unacknowledged, with a clean restart; oracle over the event log: a checkpoint write names the end of an acknowledged pack of its own stream with every earlier message of that stream acknowledged, acknowledgements have no gaps, checkpoints marked dropped never change, and after the final restart every source row has been acknowledged at least once"
 	fsExplore(t, res, "C05", bound, fsC05Scenarios(ev.Thorough()), 150*time.Second)
+}
+
+// C03 across pause / resume / restart: the crash, fault and pause scenarios of C05 judged by the time clauses
+func TestVerifC03Resume(t *testing.T) {
+	res := ev.New("C03", "resume")
+	defer res.Write()
+	fsKeep = []string{"C03/"}
+	bound := 2
+	if ev.Thorough() {
+		bound = 3
+	}
+	res.Rule = "full-stack harness of C05 (crash before / after every visible step, write and store failures, manual pause, restart from the persisted checkpoints, skewed streams sharing a downstream channel); oracle over the packs the downstream ACCEPTED on each channel, in order, across all incarnations: closing ticks never decrease, every data message is above every earlier accepted pack's closing tick and not above its own"
+	fsExplore(t, res, "C03", bound, fsC05Scenarios(ev.Thorough()), 150*time.Second)
 }
 
 func TestVerifC06Failure(t *testing.T) {
